@@ -518,6 +518,10 @@ def _fuzz_campaign(mod, sc, tier, seed, scale, a, violations, harness_errors):
         for sig, v in st["violations"].items():
             violations.append((sc.name, {"case": v["case"], "violation": v["violation"]}))
     shutil.rmtree(work, ignore_errors=True)
+    if execs >= 500 and reached == 0:
+        harness_errors.append((sc.name, {"case": None, "traceback": "the coverage-guided phase ran %d executions and none "
+                               "reached the oracle: Hypothesis rejects every buffer for this strategy (fixed_dictionaries "
+                               "with >= 4 keys cannot be driven by fuzz_one_input - use a mapped tuple)" % execs}))
     info.update({"workers": procs, "executions": execs, "executions_that_reached_the_oracle_at_least": reached,
                  "edges_covered": cov, "features": ft,
                  "wall_s": round(time.time() - t0, 1)})
